@@ -274,8 +274,11 @@ func matchKnown(known []KnownFinding, prop string, v *Violation) *KnownFinding {
 		if v.Known != "" && v.Known != k.ID {
 			continue
 		}
-		if v.Known == "" && k.ID != "" && strings.HasPrefix(k.ID, "KF-pred-") {
-			continue // predicate-scoped finding: only matches violations tagged by the harness
+		if v.Known == "" && strings.HasPrefix(k.ID, "KF-") {
+			// predicate-scoped finding (the harness registers its input predicate with vKnown): it matches
+			// only counterexamples whose inputs satisfy the predicate; any other violation of the same
+			// harness is reported
+			continue
 		}
 		return k
 	}
